@@ -103,7 +103,7 @@ where C: ChannelProducer<'static, u32, D>, D: 'static + std::fmt::Debug {
         }
         Ep::SendWith => {
             let invoked = std::cell::Cell::new(0u32);
-            let r = chan.send_with(|slot| { invoked.set(invoked.get() + 1); unsafe { std::ptr::write(slot, v) } });
+            let r = chan.send_with(|slot| { invoked.set(invoked.get() + 1); mcx::step(); unsafe { std::ptr::write(slot, v) } });
             match r {
                 keen_retry::RetryResult::Ok { .. } => { if invoked.get() != 1 { mcx::rec("s.bad", v as i64, 3) } true },
                 keen_retry::RetryResult::Transient { input, .. } => {
@@ -119,7 +119,7 @@ where C: ChannelProducer<'static, u32, D>, D: 'static + std::fmt::Debug {
             let inv = invoked.clone();
             let fut = chan.send_with_async(move |slot: &'static mut u32| {
                 inv.fetch_add(1, std::sync::atomic::Ordering::Relaxed);
-                async move { unsafe { std::ptr::write(slot, v) }; slot }
+                async move { mcx::step(); unsafe { std::ptr::write(slot, v) }; slot }
             });
             let r = drive(fut);
             let n = invoked.load(std::sync::atomic::Ordering::Relaxed);
